@@ -133,7 +133,7 @@ class StateMachine(metaclass=StateMachineMetaclass):
         state["_rtc"] = self._engine._rtc
         # Was the (deferred) initial activation still waiting in the queue?
         state["_activation_pending"] = any(
-            trigger_data.event == "__initial__" for trigger_data in self._engine._external_queue
+            trigger_data.is_initial for trigger_data in self._engine._external_queue
         )
         del state["_callbacks"]
         del state["_states_for_instance"]
